@@ -484,6 +484,13 @@ func init() {
 				return time.Unix(0, ns).UTC().Format(l)
 			}
 		}
+		if nt, ok := timeNs(a[0]).(*Term); ok {
+			if l, ok := a[1].(string); ok && (l == time.RFC3339 || l == time.RFC3339Nano) {
+				// tagged rendering of the whole seconds; time.Parse recognises it
+				secs := TDivTrunc(nt, TInt(1_000_000_000))
+				return simplify(TConcat(TStr(rfcTag), TFromInt(secs)))
+			}
+		}
 		return "<time>"
 	})
 	reg("(time.Time).String", func(ex *Exec, fr *frame, a []Value) Value { return "<time>" })
@@ -517,7 +524,13 @@ func init() {
 			}
 			return Tuple{int64(d), Iface{}}
 		case *Term:
-			// uninterpreted: ok flag and value are functions of the string
+			// decimal rendering of a symbolic integer followed by a unit: exact
+			if s.Op == "str.++" && len(s.Args) == 2 && s.Args[0].Op == "fmtint" && s.Args[1].IsConst() {
+				if u, err := time.ParseDuration("1" + s.Args[1].S); err == nil {
+					return Tuple{simplify(TMul(s.Args[0].Args[0], TInt(int64(u)))), Iface{}}
+				}
+			}
+			// otherwise uninterpreted: ok flag and value are functions of the string
 			return ex.parseModel("dur", s, -(1 << 50), 1<<50)
 		}
 		return &Opaque{"ParseDuration"}
@@ -535,6 +548,9 @@ func init() {
 			}
 			return Tuple{ex.timeStruct(t.UnixNano()), Iface{}}
 		case *Term:
+			if s.Op == "str.++" && len(s.Args) == 2 && s.Args[0].IsConst() && s.Args[0].S == rfcTag && s.Args[1].Op == "fmtint" {
+				return Tuple{ex.timeStruct(simplify(TMul(s.Args[1].Args[0], TInt(1_000_000_000)))), Iface{}}
+			}
 			r := ex.parseModel("time", s, 0, 1<<40).(Tuple)
 			// value is whole seconds
 			secs := r[0]
@@ -543,6 +559,8 @@ func init() {
 		return &Opaque{"time.Parse"}
 	})
 }
+
+const rfcTag = "@rfc3339:"
 
 const zeroTimeNs = -6795364578871345152 // sentinel for the zero time.Time (clamped)
 
